@@ -489,6 +489,8 @@ pub struct FamilyOutcome {
     pub nontrivial: bool,
     /// seam-level trace (task, site, slot, value class) of the last variant
     pub trace: u64,
+    /// result log of variant 0
+    pub logs0: Vec<Vec<Res>>,
 }
 
 /// Runs every variant of a family and compares their result logs.
@@ -573,6 +575,7 @@ pub fn run_family(fam: &Family, stats: &mut Stats) -> FamilyOutcome {
         signature: h.finish(),
         nontrivial,
         trace: outs.last().map_or(0, |o| o.trace_hash),
+        logs0: outs.first().map(|o| o.logs.clone()).unwrap_or_default(),
     }
 }
 
@@ -810,6 +813,7 @@ fn cmd_replay(args: &[String]) -> i32 {
         "{}",
         serde_json::to_string(&serde_json::json!({
             "violations": shown,
+            "logs": if flag(args, "--logs") { Some(&fo.logs0) } else { None },
             "log_hashes": fo.log_hashes,
             "choices": fo.choices,
             "diverged": stats.replay_diverged,
@@ -827,6 +831,18 @@ fn cmd_gen(args: &[String]) -> i32 {
     let prop = arg(args, "--prop").expect("--prop");
     let profile = gen::Profile::parse(prop).expect("unknown profile");
     let seed: u64 = arg(args, "--seed").unwrap_or("1").parse().unwrap();
+    if let (Some(from), Some(to)) = (arg(args, "--from"), arg(args, "--to")) {
+        // one family per line
+        let (from, to): (u64, u64) = (from.parse().unwrap(), to.parse().unwrap());
+        use std::io::Write;
+        let out = std::io::stdout();
+        let mut out = out.lock();
+        for index in from..to {
+            let fam = gen::generate(profile, seed, index, target());
+            writeln!(out, "{}", serde_json::to_string(&fam).unwrap()).unwrap();
+        }
+        return 0;
+    }
     let index: u64 = arg(args, "--index").unwrap_or("0").parse().unwrap();
     let mut fam = gen::generate(profile, seed, index, target());
     if let Some(c) = arg(args, "--choices") {
